@@ -45,6 +45,14 @@ PROPS = {
                    dict(name="VerifMergeCreateZipFile", bounds=dict(quick=dict(CALLS=10), thorough=dict(CALLS=12)), opts=dict(unwind=300, workers=8)),
                    dict(name="VerifWriteContextAbort", pkg=PD, opts=dict(unwind=300, workers=4))],
     ),
+    "C04": dict(
+        pkg="./cmd/pdfcpu",
+        pregen=["tools/gen_c04.py"],
+        explanation="every handle*Command function of cmd/pdfcpu (the table is regenerated from the current sources on every run: 83 handlers today) is executed on the interpreted file system with runCommand replaced by a sink: all argument lists of 0..ARGS entries over a pool of 13 values (input PDFs, existing and absent output files, JSON/CSV files, empty / non-empty / absent directories, '-', a number, a keyword) x --force on/off; whenever the sink is reached with an explicit output file that exists and is not the command's input, or with a non-empty output directory for a directory-writing mode, --force must be set",
+        outside="cobra's flag parsing and argument-count validation in front of the handlers (handlers are called with every argument count; a panic on a count cobra would reject is not a violation), option structs other than their zero value, the exit status and the refusal message, that refused commands leave files unchanged (nothing is written before the sink: by reading)",
+        assumptions=["append-style commands (import, merge -mode append) treat an existing output as their input, as their usage text documents"],
+        harnesses=[dict(name="VerifForceGate", bounds=dict(quick=dict(ARGS=3), thorough=dict(ARGS=4)), opts=dict(unwind=3000), nodiff=False, diff=4)],
+    ),
     "C05": dict(
         pkg="./pkg/pdfcpu/sanitize",
         explanation="sanitize.Path / pathPart / PathOr executed symbolically on attacker-controlled names whose every byte is an SMT variable (lengths 0..N, so every UTF-8 class, control characters, separators, drive prefixes, dots and DOS device names up to the bound): the result is rejected or one safe relative path component",
